@@ -19,6 +19,7 @@ import (
 	"path/filepath"
 	"strconv"
 	"strings"
+	"time"
 
 	"github.com/gotd/td/mtproxy"
 	"github.com/gotd/td/mtproxy/faketls"
@@ -98,6 +99,8 @@ func facts(f *hc.Facts) {
 	f.Const("typeHandshake", dir, "RecordTypeHandshake")
 	f.Const("typeApplication", dir, "RecordTypeApplication")
 	f.Const("maxHandshakeRecords", dir, "maxHandshakeRecords")
+	f.Const("clientRandomOffset", dir, "clientRandomOffset")
+	f.Const("clientRandomLength", dir, "clientRandomLength")
 	byteArrayFact(f, "version10", "Version10Bytes")
 	byteArrayFact(f, "version11", "Version11Bytes")
 	byteArrayFact(f, "version12", "Version12Bytes")
@@ -128,18 +131,47 @@ func facts(f *hc.Facts) {
 	} else {
 		f.Bool("writesVersion12", true, "NewFakeTLS: version: Version12Bytes")
 	}
-	// FakeTLS.Write loops over chunks bounded by maxTLSRecordDataLength (repair of D7)
-	splits := false
+	// FakeTLS.Write: the loop that cuts the data into records.  The cut condition and the cut position
+	// are translated (semantic facts); without a loop the model falls back to one record per call.
+	var cond, cut ast.Expr
+	advances := false
 	if fd := f.FuncDecl(dir, "FakeTLS.Write"); fd != nil {
 		ast.Inspect(fd, func(n ast.Node) bool {
 			fs, ok := n.(*ast.ForStmt)
-			if ok && strings.Contains(f.Src(fs), "maxTLSRecordDataLength") && strings.Contains(f.Src(fs), "writeRecord(") {
-				splits = true
+			if !ok || !strings.Contains(f.Src(fs), "writeRecord(") {
+				return true
 			}
-			return true
+			ast.Inspect(fs, func(m ast.Node) bool {
+				switch m := m.(type) {
+				case *ast.IfStmt:
+					if cond == nil && strings.Contains(hc.Squash(f.Src(m.Cond)), "len(chunk)") {
+						cond = m.Cond
+						ast.Inspect(m.Body, func(k ast.Node) bool {
+							if se, ok := k.(*ast.SliceExpr); ok && cut == nil && se.Low == nil && se.High != nil && f.Src(se.X) == "chunk" {
+								cut = se.High
+							}
+							return true
+						})
+					}
+				case *ast.AssignStmt:
+					if hc.Squash(f.Src(m)) == "b=b[len(chunk):]" {
+						advances = true
+					}
+				}
+				return true
+			})
+			return false
 		})
 	}
-	f.Bool("writeSplits", splits, "FakeTLS.Write: a for loop writing records of at most maxTLSRecordDataLength bytes")
+	splits := cond != nil && cut != nil && advances
+	f.Bool("writeSplits", splits, "FakeTLS.Write: a loop writing one record per chunk and advancing by len(chunk)")
+	if splits {
+		f.TranslateExpr("splitNeeded", dir, cond, "Bool", []string{"n"}, map[string]string{"len(chunk)": "n"}, "FakeTLS.Write: the remaining data does not fit one record")
+		f.TranslateExpr("splitAt", dir, cut, "Int", nil, nil, "FakeTLS.Write: length of a full record's data")
+	} else {
+		f.ConstFn("splitNeeded", []string{"n"}, "Bool", "false", "FakeTLS.Write does not split")
+		f.ConstFn("splitAt", nil, "Int", "0", "FakeTLS.Write does not split")
+	}
 }
 
 // pattern is the payload generator shared with the driver: byte i = seed + i + i/256 (mod 256).
@@ -507,6 +539,46 @@ func run(c *hc.Ctx) error {
 			fail(c, "hello-rejected", line, "a well-formed hello with the right digest was rejected: "+err.Error())
 		}
 		add(line, out)
+	}
+
+	// ---- 3b. ClientHello: digest placement and timestamp XOR
+	for i := 0; i < c.N(150, 4000); i++ {
+		secret := r.Bytes(16)
+		now := hc.Pick(r, int64(0), 1, 255, 256, 1<<31-1, 1<<31, 1<<32-1, 1<<32, 1<<32+5, 1790000000, int64(r.U64()>>hc.Pick(r, 1, 20, 31, 33)))
+		domain := hc.Pick(r, "example.org", "a.b", "telegram.org", "x"+strings.Repeat("y", r.Range(1, 40))+".com")
+		var w bytes.Buffer
+		rnd, err := faketls.VerifC19WriteClientHello(&w, r, time.Unix(now, 0), domain, secret)
+		sig := fmt.Sprintf("chello-gen %s %d %s", hc.Hex(secret), now, domain)
+		if err != nil {
+			fail(c, "clienthello-error", sig, err.Error())
+			continue
+		}
+		rec := append([]byte{}, w.Bytes()...)
+		if len(rec) < 43 || rec[0] != 0x16 || int(binary.BigEndian.Uint16(rec[3:5])) != len(rec)-5 {
+			fail(c, "clienthello-record", sig, "the ClientHello is not one well-formed handshake record")
+			continue
+		}
+		zeroed := append([]byte{}, rec...)
+		for k := 11; k < 43; k++ {
+			zeroed[k] = 0
+		}
+		// monitor: what an MTProxy server checks — HMAC(secret, hello with zeroed random) XOR random = 28 zero bytes ‖ LE32(unix time)
+		mac := hmac.New(sha256.New, secret)
+		mac.Write(zeroed)
+		sum := mac.Sum(nil)
+		var x [32]byte
+		for k := range x {
+			x[k] = sum[k] ^ rec[11+k]
+		}
+		var want [32]byte
+		binary.LittleEndian.PutUint32(want[28:], uint32(now))
+		if x != want || !bytes.Equal(rnd[:], rec[11:43]) {
+			fail(c, "clienthello-digest", sig, fmt.Sprintf("digest XOR random = %x, expected 28 zero bytes and the little-endian time %d; returned random matches the record: %v", x, uint32(now), bytes.Equal(rnd[:], rec[11:43])))
+		}
+		line := fmt.Sprintf("chello %s %d %s", hc.Hex(secret), now, hc.Hex(zeroed))
+		c.Eval(line, true)
+		c.Count("chello")
+		add(line, "ok "+hc.Hex(rec)+" "+hc.Hex(rnd[:]))
 	}
 
 	// ---- 4. the whole client handshake against a scripted server
